@@ -460,3 +460,11 @@ M("c06-twin-ranges-temps", "C06", J, "                given = np.full(2, args[ou
 M("c06-twin-ranges-1e-10", "C06", J, "        probabilities = np.array([1e-12, 1 - 1e-12])\n", "        probabilities = np.array([1e-10, 1 - 1e-10])\n", expect="pass")
 M("c05-ew-pdf-raw-compare", "C05", D, "        x = np.asarray(x)  # array_like: a list cannot be compared with 0\n", "", rules=["C05.support"], what="original defect (audits C05#3, C06-second#2)")
 M("c05-twin-ew-pdf-float", "C05", D, "        x = np.asarray(x)  # array_like: a list cannot be compared with 0\n", "        x = np.asarray(x, dtype=float)\n", expect="pass")
+M("c16-cdf-requested-n", "C16", J, "                p[i] = (sample <= x_val).sum() / len(sample)\n", "                p[i] = (sample <= x_val).sum() / n\n", rules=["C16.mc"], what="original defect (third audit C16#1)")
+M("c16-twin-cdf-mean", "C16", J, "                # the sampler may return fewer than n values\n                p[i] = (sample <= x_val).sum() / len(sample)\n", "                p[i] = np.mean(sample <= x_val)\n", expect="pass")
+M("c16-no-sample-zero-cdf", "C16", J, "                p[i] = np.nan  # no sample, no estimate\n", "                p[i] = 0\n", rules=["C16.mc"], what="original defect (third audit C16#2)")
+M("c16-no-sample-zero-icdf", "C16", J, "                x[i] = np.nan  # no sample, no estimate\n", "                x[i] = 0\n", rules=["C16.mc"], what="original defect (third audit C16#2)")
+M("c16-memo-ignores-model", "C16", J, "        if self._sample is None or self._sample_model != model_state:\n", "        if self._sample is None:\n", rules=["C16.cache"], what="original defect (third audit C16#3)")
+M("c16-memo-key-not-stored", "C16", J, "            self._sample_model = model_state\n", "", rules=["C16.cache"], what="the key is compared but never updated: a new sample on every call ... and never for the right model")
+M("c16-twin-memo-str", "C16", J, "        model_state = repr(self.model)\n", "        model_state = str(self.model)\n", expect="pass")
+M("c16-inverse-cancellation", "C16", VT, "    hs = 4 * d**2 * s / (root + factor)\n", "    hs = (root - factor) / (4 * s)\n", rules=["C16.closed"], what="original defect (third audit C16#4)")
